@@ -78,6 +78,10 @@ func run(c Case) *kit.Result {
 		if op.Op == "empty" && op.Name == nMain {
 			res.Label("fault:empty")
 		}
+		if op.Op == "forge" || op.Op == "localhdr" {
+			res.Label("cop:" + op.Op + ":" + op.S)
+			shape = append(shape, op.S)
+		}
 		faulted = true
 	}
 	if !faulted {
@@ -163,7 +167,13 @@ func TestC06(t *testing.T) {
 	for _, op := range FaultOps {
 		must["fault:"+op] = 0.02
 	}
-	must["fault:missing"] = 0.02
+	must["fault:missing"] = 0.01
+	must["fault:relids"] = 0.04
+	must["fault:relids:no-styles"] = 0.025
+	must["cop:forge"] = 0.02
+	must["cop:forge:usize-1<<62"] = 0.005
+	must["opened-rowless-table"] = 0.02
+	must["opened-table-empty-first-row"] = 0.02
 	var crashers []Case
 	if kit.Tier == "thorough" && kit.Shard == 0 && os.Getenv("VERIF_REPLAY") == "" {
 		crashers = nativeFuzz(t) // generator (d); its crashers go through the verdict pipeline as fixed cases
@@ -176,14 +186,14 @@ func TestC06(t *testing.T) {
 			"distinct = distinct (generator, element skeleton with bucketed repetition/nesting, prolog, fault operators, container operators, open outcome)",
 		Gen: genCase, Run: run, Findings: findings, Fixed: func() []Case { return append(fixed(), crashers...) },
 		Assumptions: []string{
-			"termination is observed through a 20 s per-case watchdog (typical case: milliseconds) and the driver's re-run of the saved case",
+			"termination is observed through a 10 s (thorough 20 s) per-case watchdog (typical case: milliseconds) and the driver's re-run of the saved case",
 			"well-formedness of the regenerated main part is decided by the harness's own checker, not by a schema validator",
 			"the package-level clause T3.p3 is demanded only when the input's content types and package relationships were the standard ones or in the class the library replaces by defaults (absent, or not readable as XML up to the end of the root element)",
 			"per opened document the table script runs on at most 6 tables and visits at most 3000 cells per table",
 			"memory exhaustion is out of scope: generated parts are capped at 4 MB (thorough 12 MB)",
 		},
 		MustSee:   must,
-		CaseLimit: 20 * time.Second,
+		CaseLimit: time.Duration(kit.Scale(10, 20)) * time.Second,
 		Extra: func() map[string]interface{} {
 			return map[string]interface{}{"vocabulary_source": v.Source, "vocabulary_elements": fmt.Sprint(len(v.Elems))}
 		},
